@@ -60,6 +60,8 @@ type Line struct {
 	Reason2  string  `json:"reason2"`
 	Faults   [][]any `json:"faults"`
 	Res      string  `json:"res"`
+	Held     bool    `json:"held"` // stopunload: a member kept the stop in progress while the unload was tried
+	Res2     string  `json:"res2"` // stopunload: result of the ApplicationUnload tried while the stop was in progress
 	Hung     bool    `json:"hung"`
 	State    string  `json:"state"` // loaded running stopping unloaded
 	Alive    []bool  `json:"alive"`
@@ -334,6 +336,45 @@ func (r *Runner) Run(h *History) ([]Line, bool, error) {
 			cur := snapshot()
 			if p, ok := cur[op.I]; ok {
 				inject(r.Node, p, op.Reason)
+			}
+		case "stopunload":
+			// member J is busy in a handler, so ApplicationStop stays in progress; ApplicationUnload is tried in that window
+			// (it must be refused); then the member goes on and the stop completes
+			cur := snapshot()
+			pj, okj := cur[op.J]
+			var release chan struct{}
+			if okj {
+				entered := make(chan struct{})
+				release = make(chan struct{})
+				parked := false
+				if r.Node.Send(pj, gated.Cmd{Fn: func(*gated.Scripted) error { close(entered); <-release; return nil }}) == nil {
+					select {
+					case <-entered:
+						parked = true
+					case <-time.After(300 * time.Millisecond):
+					}
+				}
+				if !parked {
+					close(release) // (a member that is gone cannot keep anything in progress)
+					release = nil
+				}
+			}
+			stopDone := make(chan error, 1)
+			go func() { stopDone <- r.Node.ApplicationStop(appName) }()
+			ln.Held = release != nil
+			if ln.Held {
+				time.Sleep(3 * time.Millisecond)
+				ln.Res2 = resName(r.Node.ApplicationUnload(appName))
+				close(release)
+			}
+			select {
+			case err = <-stopDone:
+			case <-time.After(8 * time.Second):
+				hg = true
+			}
+			if !ln.Held {
+				// nobody kept the stop in progress: the unload simply follows it
+				ln.Res2 = resName(r.Node.ApplicationUnload(appName))
 			}
 		case "fault2":
 			cur := snapshot()
